@@ -33,8 +33,15 @@ for p in sorted(glob.glob("seeded/*/meta.json")):
     if note:
         hist += "; " + note
     rows.append("| %s | %s | %s | %s |" % (sid, title[:110].replace("|", "/"), clause or "-", hist))
-print("| seeded change | what it is | failing clause reported by the check (latest evaluation) | history |")
-print("|---|---|---|---|")
-print("\n".join(rows))
 det = sum(1 for p in glob.glob("seeded/*/meta.json") if json.load(open(p)).get("detected_by"))
-print("\n%d seeded changes, %d detected by the quick tier in the latest evaluation" % (len(rows), det))
+table = "| seeded change | what it is | failing clause reported by the check (latest evaluation) | history |\n|---|---|---|---|\n" + "\n".join(rows)
+table += "\n\n%d seeded changes, %d detected by the quick tier in the latest evaluation.\n" % (len(rows), det)
+import sys
+if "--update-design" in sys.argv:
+    d = open("DESIGN.md").read()
+    a = d.index("<!-- seeded-table:begin -->") + len("<!-- seeded-table:begin -->")
+    b = d.index("<!-- seeded-table:end -->")
+    open("DESIGN.md", "w").write(d[:a] + "\n" + table + d[b:])
+    print("DESIGN.md updated: %d rows, %d detected" % (len(rows), det))
+else:
+    print(table)
